@@ -437,9 +437,11 @@ class TestCaseExecutor(AbstractTestCaseExecutor):
         try:
             self._before_test_case_execution(test_case)
             result = ExecutionResult()
+            # The output suppression comes first: it may have to reopen its null file, which
+            # must not go through (and be refused by) the patched ``open`` of the isolation.
             with (
-                FilesystemIsolation(),
                 output_suppression_context,
+                FilesystemIsolation(),
                 self._subject_properties.instrumentation_tracer,
             ):
                 namespace = self._build_namespace()
